@@ -17,7 +17,7 @@ oracle     any RQ the resolver emits that fails a clause is reported with the pr
 findings   open: F1 (carried sort not visible), F6 (relation parameter used twice), F7 (excluded column of a sub-pipeline),
            F8 (top-level scalar let mentioned twice), F9 (select in a group body drops the group key).
            fixed in /repo and therefore never returned by a classifier: F2 (8f24a64), F3 (7911778), F4 (3b8ac37), F5 (592b6f8),
-           and the plain-aggregate half of F1 (8d54bf7).
+           and the two aggregate halves of F1 (8d54bf7 outside a group, f809321 inside).
 """
 import json
 import os
@@ -224,7 +224,8 @@ def carried_sort_droppers(q, w, c):
     return kinds
 
 
-F1_DROPPERS = {"Select", "Aggregate-in-group"}
+# f809321 (an aggregate inside a group ends the sort too) repaired the group-aggregate dropper; 8d54bf7 the plain one
+F1_DROPPERS = {"Select"}
 
 
 def excluded_from_columns(q, w):
@@ -294,6 +295,8 @@ def regression_of(q, diags, src=""):
         out.append(F4)
     if any(c16_wf.lax_diag(d) and "Aggregate" in carried_sort_droppers(q, d[1], d[3]) for d in diags):
         out.append(F1 + " (the plain-aggregate half, repaired by 8d54bf7)")
+    if any(c16_wf.lax_diag(d) and "Aggregate-in-group" in carried_sort_droppers(q, d[1], d[3]) for d in diags):
+        out.append(F1 + " (the group-aggregate half, repaired by f809321)")
     return out
 
 
